@@ -368,8 +368,121 @@ pub fn gen_intern(seed: u64, tier: &str) -> Vec<String> {
     out
 }
 
+/// C09: operation sequences with checkpoints
+fn cp_alphabet(ncps: usize) -> Vec<String> {
+    let mut v = vec!["start 0".to_string(), "tok 10 61".to_string(), "finish_node".to_string()];
+    if ncps < 2 {
+        v.push("cp".to_string());
+    }
+    for j in 0..ncps {
+        v.push(format!("start_at k{} 1", j));
+        v.push(format!("revert k{}", j));
+    }
+    v
+}
+
+fn cp_enumerate(len: usize, prefix: &mut Vec<String>, ncps: usize, out: &mut Vec<String>, case: &mut usize) {
+    // emit the sequence built so far (every prefix is a case of its own length)
+    if prefix.len() == len {
+        out.push(format!("case {}", *case));
+        *case += 1;
+        out.push("cache user".into());
+        out.push("builder c0".into());
+        out.push("start 0".into());
+        out.extend(prefix.iter().cloned());
+        out.push("finish_node".into());
+        out.push("finish".into());
+        return;
+    }
+    for op in cp_alphabet(ncps) {
+        let n2 = if op == "cp" { ncps + 1 } else { ncps };
+        prefix.push(op);
+        cp_enumerate(len, prefix, n2, out, case);
+        prefix.pop();
+    }
+}
+
+pub fn gen_checkpoints(seed: u64, tier: &str) -> Vec<String> {
+    let mut rng = Rng::new(seed ^ 0xC09);
+    let mut out = vec![];
+    header(&mut out);
+    let mut case = 0usize;
+    // corpus: the documented usage patterns and the known-problematic one
+    for seq in [
+        vec!["start 0", "cp", "tok 10 61", "start 2", "revert k0", "tok 10 62", "finish_node", "finish"],
+        vec!["start 0", "cp", "tok 10 61", "start_at k0 1", "tok 10 62", "finish_node", "finish_node", "finish"],
+        vec!["start 0", "tok 10 61", "cp", "start 1", "tok 10 62", "finish_node", "start 2", "revert k0", "finish_node", "finish"],
+        vec!["start 0", "cp", "cp", "tok 10 61", "revert k1", "start_at k0 1", "finish_node", "finish_node", "finish"],
+    ] {
+        out.push(format!("case {}", case));
+        case += 1;
+        out.push("cache user".into());
+        out.push("builder c0".into());
+        for l in seq {
+            out.push(l.to_string());
+        }
+    }
+    let maxlen = if tier == "thorough" { 6 } else { 5 };
+    for len in 1..=maxlen {
+        cp_enumerate(len, &mut vec![], 0, &mut out, &mut case);
+    }
+    // random parser-like walks, mostly valid
+    let n = if tier == "thorough" { 20000 } else { 1500 };
+    let bes = backends();
+    for i in 0..n {
+        out.push(format!("case {}", case));
+        case += 1;
+        out.push(format!("cache {}", bes[i % bes.len()]));
+        out.push("builder c0".into());
+        out.push("start 0".into());
+        let len = 5 + rng.below(if tier == "thorough" { 200 } else { 60 });
+        let mut depth = 1usize; // open nodes
+        let mut cps: Vec<(usize, usize)> = vec![]; // (index, depth at creation)
+        let mut ncp = 0usize;
+        for _ in 0..len {
+            let r = rng.below(100);
+            if r < 30 {
+                out.push(format!("tok {} {}", *rng.pick(&[10u32, 11, 12, 13, 15][..]), hex(*rng.pick(&TEXTS[..]))));
+            } else if r < 45 {
+                out.push(format!("start {}", rng.below(4)));
+                depth += 1;
+            } else if r < 60 {
+                if depth > 1 || rng.chance(1, 10) {
+                    out.push("finish_node".into());
+                    depth = depth.saturating_sub(1);
+                }
+            } else if r < 75 {
+                out.push("cp".into());
+                cps.push((ncp, depth));
+                ncp += 1;
+            } else if !cps.is_empty() {
+                // mostly use a recent checkpoint taken at the current depth (valid), sometimes any
+                let cand: Vec<(usize, usize)> = cps.iter().cloned().filter(|c| c.1 == depth).collect();
+                let (j, d) = if !cand.is_empty() && rng.chance(4, 5) { *rng.pick(&cand) } else { *rng.pick(&cps) };
+                if rng.chance(1, 2) {
+                    out.push(format!("start_at k{} {}", j, rng.below(4)));
+                    if d == depth {
+                        depth += 1;
+                    }
+                } else {
+                    out.push(format!("revert k{}", j));
+                    if d <= depth {
+                        depth = d;
+                    }
+                }
+            }
+        }
+        for _ in 0..depth {
+            out.push("finish_node".into());
+        }
+        out.push("finish".into());
+    }
+    out
+}
+
 pub fn generate(what: &str, seed: u64, tier: &str) -> Vec<String> {
     match what {
+        "checkpoints" => gen_checkpoints(seed, tier),
         "build" => gen_build(seed, tier),
         "history" => gen_history(seed, tier),
         "intern" => gen_intern(seed, tier),
